@@ -1,11 +1,13 @@
 import Driver.Loop
 import Driver.C01Mon
+import Driver.C02Mon
 open Kv
 
 /-- monitor-only driver: imports nothing generated, so it builds whatever the source looks like -/
 def dispatchMon (prop : String) (l : Line) : String :=
   match prop with
   | "C01" => Drv.C01.stepMon l
+  | "C02" => Drv.C02.stepMon l
   | _ => "bad-op"
 
 def main : IO Unit := driverMain dispatchMon
